@@ -217,6 +217,18 @@ fn closure_has_master(name: &str, man: &Value, m: &str, depth: usize) -> bool {
     depth <= 8 && components_of(name, man).iter().all(|c| closure_has_master(c, man, m, depth + 1))
 }
 
+/// Some exported *composite* in the closure has no layer at master `m`: its instance there can be taken by interpolating
+/// its component placements (and drawing the components at `m`) or by interpolating its decomposed outline - the builds
+/// differ in which (finding F37).  A *simple* glyph without that master is interpolated the same way by every build.
+fn nested_sparse_at(name: &str, man: &Value, m: &str, depth: usize) -> bool {
+    let exported = glyph_of(name, man).map(|g| g["export"].as_bool().unwrap_or(true)).unwrap_or(true);
+    let comps = components_of(name, man);
+    if depth > 0 && exported && !comps.is_empty() && !layer_names(name, man).iter().any(|l| l == m) {
+        return true;
+    }
+    depth <= 8 && comps.iter().any(|c| nested_sparse_at(c, man, m, depth + 1))
+}
+
 /// args: manifest, reference font, then (label, font) pairs.  `extra_locs`: normalized locations besides the masters.
 pub fn check(man: &Value, reference: &[u8], others: &[(String, Vec<u8>)], extra_locs: &[Vec<f64>]) -> Value {
     let mut violations: Vec<Value> = vec![];
@@ -230,7 +242,7 @@ pub fn check(man: &Value, reference: &[u8], others: &[(String, Vec<u8>)], extra_
         locs = vec![vec![]];
     }
     let Ok(rf) = skrifa::FontRef::new(reference) else { return json!({"error": "reference font unreadable"}) };
-    let (mut compared, mut stored_differently) = (0usize, 0usize);
+    let (mut compared, mut stored_differently, mut partial) = (0usize, 0usize, 0usize);
     for (label, data) in others {
         let Ok(of) = skrifa::FontRef::new(data) else {
             violations.push(json!({"what": format!("{label}: font unreadable")}));
@@ -247,8 +259,19 @@ pub fn check(man: &Value, reference: &[u8], others: &[(String, Vec<u8>)], extra_
             let comparable_between = closure_same_masters(name, man, &own, 0);
             for (li, l) in locs.iter().enumerate() {
                 let at_own_master = li < masters.len().max(1) && (axes.is_empty() || masters.get(li).and_then(|m| m["name"].as_str()).map(|m| closure_has_master(name, man, m, 0)).unwrap_or(false));
-                if !at_own_master && !comparable_between {
+                // a master of the glyph itself at which some exported component has no layer: every build takes that component
+                // from the component's own interpolation there (kept as a component: its gvar; decomposed: the compiler's
+                // instance of it) - comparable, with the in-between tolerance for the interpolated part
+                let own_layer_here = !axes.is_empty() && li < masters.len() && masters.get(li).and_then(|m| m["name"].as_str()).map(|m| own.iter().any(|o| o == m)).unwrap_or(false);
+                if !at_own_master && !comparable_between && !own_layer_here {
                     continue;
+                }
+                let mut class = "";
+                if own_layer_here && !at_own_master && !comparable_between {
+                    partial += 1;
+                    if masters.get(li).and_then(|m| m["name"].as_str()).map(|m| nested_sparse_at(name, man, m, 0)).unwrap_or(false) {
+                        class = "nested-sparse-composite";
+                    }
                 }
                 // the property's bound (1 unit per nesting level) is stated for master locations; in between, every build
                 // additionally carries its own delta rounding (scaled by the component transform), so only gross changes are judged
@@ -269,11 +292,11 @@ pub fn check(man: &Value, reference: &[u8], others: &[(String, Vec<u8>)], extra_
                 // at a master each build is allowed to be 1 unit off the source advance (property C04: per-region delta rounding),
                 // so two builds may legitimately be 1 apart there - e.g. 598 vs 598.5 rounded up
                 if (radv - oadv).abs() > if at_own_master { 1.0 + 1e-3 } else { 2.0 } {
-                    violations.push(json!({"what": format!("{label}: glyph '{name}' at {l:?}: advance {oadv} vs {radv} with all components decomposed"), "glyph": name, "opts": label}));
+                    violations.push(json!({"what": format!("{label}: glyph '{name}' at {l:?}: advance {oadv} vs {radv} with all components decomposed"), "glyph": name, "opts": label, "class": class}));
                 }
                 let d = shape_dist(&ra, &oa);
                 if d > tol {
-                    violations.push(json!({"what": format!("{label}: glyph '{name}' (nesting depth {depth}) at {l:?}: resolved outline differs from the fully decomposed build by {d:.2} units (allowed {tol:.2}); {} vs {} contours", oa.len(), ra.len()), "glyph": name, "opts": label}));
+                    violations.push(json!({"what": format!("{label}: glyph '{name}' (nesting depth {depth}) at {l:?}: resolved outline differs from the fully decomposed build by {d:.2} units (allowed {tol:.2}); {} vs {} contours", oa.len(), ra.len()), "glyph": name, "opts": label, "class": class}));
                 }
             }
             if depth > 0 {
@@ -281,5 +304,5 @@ pub fn check(man: &Value, reference: &[u8], others: &[(String, Vec<u8>)], extra_
             }
         }
     }
-    json!({"violations": violations, "glyph_location_comparisons": compared, "composite_glyph_builds": stored_differently})
+    json!({"violations": violations, "glyph_location_comparisons": compared, "composite_glyph_builds": stored_differently, "comparisons_at_masters_a_component_lacks": partial})
 }
